@@ -44,3 +44,9 @@ def run(ctx):
     if quick:
         mx = [c for k, c in enumerate(mx) if k % 2 == 0]
     hist.run_histories(ctx, ["TMix", "TOpt", "TWkt", "TOne", "TImpl"], 400 if quick else 10000, 8, "presence", withref=True, extra=mx)
+
+
+def redrive(ev):
+    if "ops" in ev.get("case", {}):
+        return hist.history_event((ev["case"]["ty"], ev["case"]["ops"], True))
+    return None
